@@ -21,6 +21,7 @@ type SolverResult struct {
 	Ms     int64
 	Output string
 	File   string
+	failedPiece *Term
 }
 
 type solverSpec struct {
@@ -56,6 +57,9 @@ func TmpDir() string {
 }
 
 func Cleanup() {
+	if os.Getenv("GOVC_KEEPTMP") != "" {
+		return
+	}
 	if tmpDir != "" {
 		os.RemoveAll(tmpDir)
 	}
@@ -101,35 +105,55 @@ var guideSolver = 3
 // UseGuide enables core/model guidance by the int-blasting solver.
 var UseGuide = true
 
-// SolveQ decides a query: sat / unsat / unknown, by trusted solvers only.
+// SolveQ decides a query: sat / unsat / unknown, by trusted solvers only. z3 5.1.0 starts at once on the
+// bit-vector query and on the integer translation; z3 4.8.12 joins after a short delay (most queries are done by then).
 func SolveQ(q *Query, timeout time.Duration) SolverResult {
 	ctx, cancel := context.WithTimeout(context.Background(), timeout)
 	defer cancel()
 	start := time.Now()
 	file := newQueryFile("(set-option :produce-models true)\n" + q.Text + "(check-sat)\n")
+	afile := ""
+	if q.Alt != nil {
+		afile = newQueryFile(q.Alt.Text + "(check-sat)\n")
+	}
 	ch := make(chan SolverResult, 8)
 	pending := 0
-	for _, si := range trustedSolvers {
+	launch := func(si int, delay time.Duration) {
 		sp := solvers[si]
 		pending++
-		go func(sp solverSpec) {
+		go func() {
+			if delay > 0 {
+				select {
+				case <-time.After(delay):
+				case <-ctx.Done():
+					ch <- SolverResult{Status: "timeout", Solver: sp.name}
+					return
+				}
+			}
 			st, out := runSolver(ctx, sp, file)
 			ch <- SolverResult{Status: st, Solver: sp.name, Output: out, File: file}
-		}(sp)
-	}
-	if q.Alt != nil {
-		afile := newQueryFile(q.Alt.Text + "(check-sat)\n")
-		for _, si := range trustedSolvers {
-			sp := solvers[si]
+		}()
+		if afile != "" {
 			pending++
-			go func(sp solverSpec) {
+			go func() {
+				if delay > 0 {
+					select {
+					case <-time.After(delay):
+					case <-ctx.Done():
+						ch <- SolverResult{Status: "timeout", Solver: sp.name + "+int"}
+						return
+					}
+				}
 				st, out := runSolver(ctx, sp, afile)
 				if st != "unsat" {
 					st = "unknown" // only unsat carries over from the integer translation
 				}
 				ch <- SolverResult{Status: st, Solver: sp.name + "+int", Output: out, File: afile}
-			}(sp)
+			}()
 		}
+	}
+	for i, si := range trustedSolvers {
+		launch(si, time.Duration(i)*800*time.Millisecond)
 	}
 	if UseGuide {
 		pending++
@@ -245,55 +269,69 @@ func raceTrusted(ctx context.Context, file, tag, want string) SolverResult {
 	return res
 }
 
-// parseGetValue parses "((|a| #x01) (|b| true) ...)" into name/value pairs (values may be parenthesised).
+// parseGetValue parses "((t1 v1) (t2 v2) ...)" into term/value pairs (both may be arbitrary s-expressions).
 func parseGetValue(s string) [][2]string {
 	var out [][2]string
-	i := 0
-	n := len(s)
-	if i < n && s[i] == '(' {
-		i++
-	}
-	for i < n {
-		for i < n && (s[i] == ' ' || s[i] == '\n' || s[i] == '\t') {
+	i, n := 0, len(s)
+	skip := func() {
+		for i < n && (s[i] == ' ' || s[i] == '\n' || s[i] == '\t' || s[i] == '\r') {
 			i++
 		}
-		if i >= n || s[i] != '(' {
-			break
-		}
-		i++
-		// name
+	}
+	sexpr := func() string {
+		skip()
 		start := i
-		if s[i] == '|' {
+		if i < n && s[i] == '(' {
+			depth := 0
+			for i < n {
+				if s[i] == '|' {
+					i++
+					for i < n && s[i] != '|' {
+						i++
+					}
+				} else if s[i] == '(' {
+					depth++
+				} else if s[i] == ')' {
+					depth--
+					if depth == 0 {
+						i++
+						break
+					}
+				}
+				i++
+			}
+			return s[start:i]
+		}
+		if i < n && s[i] == '|' {
 			i++
 			for i < n && s[i] != '|' {
 				i++
 			}
 			i++
-		} else {
-			for i < n && s[i] != ' ' {
-				i++
-			}
+			return s[start:i]
 		}
-		name := s[start:i]
-		for i < n && s[i] == ' ' {
+		for i < n && s[i] != ' ' && s[i] != ')' && s[i] != '\n' {
 			i++
 		}
-		vstart := i
-		depth := 0
-		for i < n {
-			if s[i] == '(' {
-				depth++
-			} else if s[i] == ')' {
-				if depth == 0 {
-					break
-				}
-				depth--
-			}
-			i++
-		}
-		val := strings.TrimSpace(s[vstart:i])
+		return s[start:i]
+	}
+	skip()
+	if i < n && s[i] == '(' {
 		i++
-		out = append(out, [2]string{name, val})
+	}
+	for i < n {
+		skip()
+		if i >= n || s[i] != '(' {
+			break
+		}
+		i++
+		name := sexpr()
+		val := sexpr()
+		skip()
+		if i < n && s[i] == ')' {
+			i++
+		}
+		out = append(out, [2]string{name, strings.TrimSpace(val)})
 	}
 	return out
 }
